@@ -38,14 +38,19 @@ def gen_case(rng, cid, max_len=3, max_depth=2, allow=None, short_prob=0.0,
         if not ep:
             order = [0] * len(order)
         X = sg.gen_data(rng, order, ns, nu, ep, tagged=tagged)
-        return dict(cid=cid, chain=chain, ns=ns, nu=nu, ep=ep, X=X, mode=mode,
+        Xfit = X
+        if nu > 0 and rng.random() < 0.12:
+            # fit on free-response data (all inputs zero), use on driven data
+            Xfit = np.array(X, copy=True)
+            Xfit[:, (1 if ep else 0) + ns:] = 0
+        return dict(cid=cid, chain=chain, ns=ns, nu=nu, ep=ep, X=X, Xfit=Xfit, mode=mode,
                     w=w, dims=d)
     raise RuntimeError('generator could not produce a case')
 
 
 def fit_case(case):
     kp = sg.build_top(case['chain'])
-    kp.fit_transformers(case['X'], n_inputs=case['nu'], episode_feature=case['ep'])
+    kp.fit_transformers(case.get('Xfit', case['X']), n_inputs=case['nu'], episode_feature=case['ep'])
     return kp
 
 
@@ -53,6 +58,7 @@ def describe(case):
     return dict(cid=case['cid'], chain=repr(case['chain']), n_states=case['ns'],
                 n_inputs=case['nu'], episode_feature=case['ep'],
                 rows=int(case['X'].shape[0]), layout=case['mode'],
+                fit_on_zero_inputs=bool(case.get('Xfit') is not case['X']),
                 min_samples=case['w'])
 
 
